@@ -831,7 +831,9 @@ def r23_continue_guard(body: Text):
     while True:
         t = body.t
         code = code_mask(t)
-        m = next((m for m in re.finditer(r'\bif\s+([^{};]+?)\s*\{\s*continue;\s*\}', t) if code[m.start()]), None)
+        # matched on the text with comments blanked (a comment inside the block must not hide the pattern)
+        tc = ''.join(ch if (code[k] or ch == '\n') else ' ' for k, ch in enumerate(t))
+        m = next((m for m in re.finditer(r'\bif\s+([^{};]+?)\s*\{\s*continue;\s*\}', tc) if code[m.start()]), None)
         if not m:
             return n
         # innermost block containing the `if`
@@ -855,7 +857,7 @@ def r23_continue_guard(body: Text):
             body.lost.append('R23: `if .. { continue; }` is not directly inside a for-loop body')
             return n
         body.edit('R23', end, end, '} ', 'continue guard: close')
-        body.edit('R23', m.start(), m.end(), 'if !(%s) {' % m.group(1).strip(), 'continue guard')
+        body.edit('R23', m.start(), m.end(), 'if !(%s) {' % t[m.start(1):m.end(1)].strip(), 'continue guard')
         n += 1
 
 
